@@ -10,8 +10,8 @@ Fixpoint size_op (o : op) {struct o} : nat :=
   let fix sum (l : list op) : nat := match l with [] => 0 | o' :: l' => size_op o' + sum l' end in
   match o with OLock _ b => S (sum b) | OCatch b => S (sum b) | _ => 1 end.
 Definition size_prog (p : prog) : nat := fold_right (fun l a => fold_right (fun o b => size_op o + b) 0 l + a) 0 (p_code p).
-Definition small (p : prog) : bool := Nat.leb (size_prog p) 36.
-Definition explore_fuel : nat := 4000.
+Definition small (p : prog) : bool := Nat.leb (size_prog p) 30.
+Definition explore_fuel : nat := 3000.
 
 (* 0 ok: the schedule replays to the observation.
    1: the search found no schedule; nothing established inside Coq (program too large to explore).
